@@ -1,4 +1,4 @@
-import PV.Lemmas.IPC
+import PV.Lemmas.IPCSemKey
 /-!
 # C07 — shared memory (`pshm-posix.c` over the POSIX name space model `PV.IPC.OS`)
 
@@ -196,14 +196,17 @@ theorem no_fault_below_size (g : G) (t : Tid) (h : Hid) (k : ShmKey) (req : Nat)
 /-- `p_shm_free` removes exactly the mapping `p_shm_new` created — creator or follower, whatever the
     size argument: the process's mappings are those it had before.  (False of the code before fix F5:
     a follower with a smaller size argument mapped the whole segment and unmapped only the clamped size.)
-    `hfresh`: addresses are handed out increasingly (no older mapping sits at the next address). -/
+    Address freshness is no longer a hypothesis: it is part of `MapInv`, an invariant of every reachable
+    state (`mapInv_reachable`).  The version for any interleaving is `unmap_exact_interleaved`. -/
 theorem unmap_exact (g : G) (t : Tid) (h : Hid) (k : ShmKey) (req : Nat)
     (hi : Idle g t) (hh : g.hs h = none)
     (hok : (g.os.shmNames k = none ∧ req ≠ 0 ∧ g.os.semNames (.lock k) = none) ∨
            (∃ s ol, g.os.shmNames k = some s ∧ (g.os.segs s).bytes.length ≠ 0 ∧ g.os.semNames (.lock k) = some ol))
-    (hfresh : ∀ m ∈ (g.os.procs (g.pidOf t)).maps, m.addr ≠ (g.os.procs (g.pidOf t)).nextAddr) :
+    (hM : MapInv g) :
     let g2 := (g.call t (.newShm h k req false)).call t (.free h)
     (g2.os.procs (g.pidOf t)).maps = (g.os.procs (g.pidOf t)).maps ∧ g2.hs h = none := by
+  have hfresh : ∀ m ∈ (g.os.procs (g.pidOf t)).maps, m.addr ≠ (g.os.procs (g.pidOf t)).nextAddr :=
+    fun m hm => Nat.ne_of_lt (hM.claims.fresh _ m hm)
   simp only
   rcases hok with ⟨hk, hs, hl⟩ | ⟨s, ol, hk, hL, hl⟩
   · have c := call_newShm_fresh g t h k req false hi hh hk hl hs
@@ -400,6 +403,80 @@ theorem crash_points_of_creation :
     ([0, 2, 3, 4, 5, 6].all fun j => nonZeroIfBound (crashAt (G.init id) 0 (.newShm 0 0 64 false) j) 0) = true ∧
     nonZeroIfBound (crashAt (G.init id) 0 (.newShm 0 0 64 false) 1) 0 = false := by decide
 
+/-! ## any interleaving: the follower's own system calls interleave with everybody else's
+
+`MapInv` (who owns which mapping; address freshness) holds in every reachable state.  `KeyInv k s L`
+("the segment of `k` exists": bound to `s` of `L` bytes, all live handles of `k` mapped to `s`, all
+`p_shm_new (k)` in flight are followers that have only seen `s`, nobody is about to `ftruncate s`) is
+established by a first creation and preserved by EVERY schedule without a `shm_unlink (k)` — which only
+an owner free or a failing creator of `k` issues (`segment_exists_until_owner_free`). -/
+
+/-- every state reachable from the initial one satisfies `MapInv` and `SegWF` -/
+theorem reachable_invariants (pidOf : Tid → Pid) (as : List Action) :
+    MapInv (execAll (G.init pidOf) as) ∧ SegWF (execAll (G.init pidOf) as) :=
+  ⟨mapInv_reachable pidOf as, segWF_execAll as _ (segWF_init pidOf)⟩
+
+/-- a first creation of `k` (no live handle of `k`, no `p_shm_new (k)` in flight) establishes the
+    invariant, and any schedule without `shm_unlink (k)` keeps it — whatever `p_shm_new`, `p_shm_free`,
+    lock, unlock, store or SIGKILL steps of whatever threads and processes it interleaves -/
+theorem segment_exists_while_not_unlinked (g : G) (t : Tid) (h : Hid) (k : ShmKey) (size : Nat) (ro : Bool) (as : List Action)
+    (hM : MapInv g) (hS : SegWF g) (hi : Idle g t) (hh : g.hs h = none) (hk : g.os.shmNames k = none) (hs : size ≠ 0)
+    (hnoH : ∀ h' p y, g.hs h' = some (p, .shm y) → y.key ≠ k)
+    (hnoF : ∀ t' hid st, g.calls t' = some (.shmNew hid st) → st.key ≠ k)
+    (hq : NoShmUnlink k (g.call t (.newShm h k size ro)) as) :
+    MapInv (execAll (g.call t (.newShm h k size ro)) as) ∧
+    KeyInv k g.os.nextSeg size (execAll (g.call t (.newShm h k size ro)) as) :=
+  keyInv_execAll k _ size as _ (mapInv_call g t _ [] hM)
+    (keyInv_after_creation g t h k size ro hM hS hi hh hk hs hnoH hnoF) hq
+
+/-- **same_name_same_bytes, any interleaving.**  While the segment of `k` exists (`MapInv ∧ KeyInv` at
+    `g0`, e.g. from `segment_exists_while_not_unlinked`) and for every schedule `as` without a
+    `shm_unlink (k)`: ANY two live handles of `k` in the resulting state — whenever and by whichever
+    interleaved `p_shm_new` calls of whichever threads / processes they were opened — address the same
+    memory: a byte stored through one is loaded through the other at every offset below both sizes. -/
+theorem same_name_same_bytes_interleaved (k : ShmKey) (s : SegId) (L : Nat) (g0 : G) (as : List Action)
+    (hM : MapInv g0) (hK : KeyInv k s L g0) (hq : NoShmUnlink k g0 as)
+    (ta tb : Tid) (ha hb : Hid) (ya yb : PShm) (off : Nat) (b : UInt8) :
+    let g := execAll g0 as
+    Idle g ta → Idle g tb → g.hs ha = some (g.pidOf ta, .shm ya) → g.hs hb = some (g.pidOf tb, .shm yb) →
+    ya.key = k → yb.key = k → ya.ro = false → off < ya.size → off < yb.size →
+    ((g.call ta (.wr ha off b)).call tb (.rd hb off)).ret tb = some (.byte b) := by
+  intro g ia ib hha hhb ka kb hrw la lb
+  obtain ⟨hM', hK'⟩ := keyInv_execAll k s L as g0 hM hK hq
+  exact handles_share_bytes k s L g hM' hK' ta tb ha hb ya yb off b ia ib hha hhb ka kb hrw la lb
+
+/-- **no_fault_below_size, any interleaving**: every offset below `p_shm_get_size` of every live handle of
+    `k` is inside its mapping and inside the object, and the reported size never exceeds the segment's -/
+theorem no_fault_below_size_interleaved (k : ShmKey) (s : SegId) (L : Nat) (g0 : G) (as : List Action)
+    (hM : MapInv g0) (hK : KeyInv k s L g0) (hq : NoShmUnlink k g0 as)
+    (h : Hid) (p : Pid) (y : PShm) (off : Nat) :
+    (execAll g0 as).hs h = some (p, .shm y) → y.key = k → off < y.size →
+    y.size ≤ L ∧ ∃ b, (execAll g0 as).os.load p y.addr off = .val b := by
+  intro hy hk ho
+  obtain ⟨hM', hK'⟩ := keyInv_execAll k s L as g0 hM hK hq
+  exact ⟨(hK'.handles h p y hy hk).1, handle_no_fault k s L _ hM' hK' h p y hy hk off ho⟩
+
+/-- **unmap_exact, any interleaving**: in every reachable state the `munmap` step of ANY `p_shm_free`
+    in flight (any name, creator or follower, whatever else is running) removes exactly the one mapping
+    that the handle's `p_shm_new` created — it exists, is the only one at that address, has exactly the
+    handle's size — and no other mapping of any process -/
+theorem unmap_exact_interleaved (pidOf : Tid → Pid) (as : List Action) (t : Tid) (i : Bool) (st : ShmFreeSt) :
+    let g := execAll (G.init pidOf) as
+    g.calls t = some (.shmFree st) → st.pc = .munmap →
+    ∃ m, m ∈ (g.os.procs (g.pidOf t)).maps ∧ m.addr = st.h.addr ∧ m.len = st.h.size ∧
+      (∀ m' ∈ (g.os.procs (g.pidOf t)).maps, m'.addr = st.h.addr → m' = m) ∧
+      ((g.step t i).os.procs (g.pidOf t)).maps = (g.os.procs (g.pidOf t)).maps.filter (fun m' => decide (m'.addr ≠ st.h.addr)) ∧
+      ∀ q, q ≠ g.pidOf t → ((g.step t i).os.procs q).maps = (g.os.procs q).maps := by
+  intro g hc hpc
+  exact free_unmaps_exactly g t i st (mapInv_reachable pidOf as) hc hpc
+
+/-- address freshness is an invariant of the `mmap` model: in every reachable state every mapping of a
+    process lies below its next address, and no two mappings share an address -/
+theorem address_freshness (pidOf : Tid → Pid) (as : List Action) (p : Pid) :
+    (∀ m ∈ ((execAll (G.init pidOf) as).os.procs p).maps, m.addr < ((execAll (G.init pidOf) as).os.procs p).nextAddr) ∧
+    (((execAll (G.init pidOf) as).os.procs p).maps.map (·.addr)).Nodup :=
+  ⟨fun m hm => (mapInv_reachable pidOf as).claims.fresh p m hm, (mapInv_reachable pidOf as).claims.nodup p⟩
+
 /-! ## EINTR (cited by C19) -/
 
 theorem shm_lock_eintr_transparent (g : G) (t : Tid) (h : Hid) (script : List Nat) :
@@ -490,6 +567,63 @@ theorem lock_is_mutex (k : ShmKey) (o : ObjId) (g : G) (as : List Action)
         exact ⟨Nat.le_trans h1.1 h2.1, Nat.le_trans h1.2 h2.2⟩
     have m := mono as g
     omega
+
+/-! ### the lock as used by C08: lock-bracketed critical sections exclude each other -/
+
+/-- **For C08.**  For EVERY schedule from a state in which all lock handles of name `k` agree on one
+    object `o` of value 1 (what a sequential creation establishes: `creation_establishes_lock`) and in
+    which no creator's CREATE-mode open / no owner's free of the lock is under way (`QuietRun (.lock k)`):
+    reading the new part `evs` of the event log, if every `p_shm_unlock` is by a current holder
+    (`Bracketed`: lock-bracketed critical sections, as every `pshmbuffer.c` operation is), then at most
+    ONE thread — of any process — is between a successful `p_shm_lock` and its `p_shm_unlock`
+    (`holders o evs` has length ≤ 1), and every live handle of `k` locks / unlocks exactly `o`. -/
+theorem at_most_one_in_critical_section (k : ShmKey) (o : ObjId) (g : G) (as : List Action)
+    (hA : Agree (.lock k) o g) (hv : (g.os.sems o).value = 1) (ho : o < g.os.nextObj) (hq : QuietRun (.lock k) g as) :
+    ∃ evs, (execAll g as).log = evs ++ g.log ∧
+      (Bracketed o evs → (holders o evs).length ≤ 1 ∧ ∀ t1 t2, t1 ∈ holders o evs → t2 ∈ holders o evs → t1 = t2) ∧
+      (∀ h p y, (execAll g as).hs h = some (p, .shm y) → y.sem.key = .lock k →
+        acquireNext y.sem = .semWait o ∧ releaseNext y.sem = .semPost o) := by
+  obtain ⟨evs, hevs⟩ := execAll_log_suffix as g
+  have hA' := agree_execAll (.lock k) o as g hA hq
+  refine ⟨evs, hevs, ?_, ?_⟩
+  · intro hb
+    have hc := (counter_execAll o as g ho).1
+    rw [hevs, acquired_append, released_append, hv] at hc
+    have hcount := holders_count o evs hb
+    have hlen : (holders o evs).length ≤ 1 := by omega
+    refine ⟨hlen, ?_⟩
+    intro t1 t2 h1 h2
+    match hh : holders o evs, hlen, h1, h2 with
+    | [], _, h1, _ => cases h1
+    | [x], _, h1, h2 =>
+      simp only [List.mem_singleton] at h1 h2
+      rw [h1, h2]
+    | _ :: _ :: _, hl, _, _ => simp at hl
+  · intro h p y hy hky
+    have := hA'.2.2 h p y hy hky
+    simp [acquireNext, releaseNext, this]
+
+/-- … from a first creation on: the hypotheses above hold right after a sequential `p_shm_new` that
+    created `k` while no lock handle of `k` was live -/
+theorem critical_sections_after_creation (g : G) (t : Tid) (h : Hid) (k : ShmKey) (size : Nat) (ro : Bool) (as : List Action)
+    (hi : Idle g t) (hh : g.hs h = none) (hk : g.os.shmNames k = none) (hs : size ≠ 0)
+    (hnone : ∀ h' p x, g.hs h' = some (p, x) → ¬ (match x with | .sem z => z.key = .lock k | .shm z => z.sem.key = .lock k))
+    (hq : QuietRun (.lock k) (g.call t (.newShm h k size ro)) as) :
+    ∃ evs, (execAll (g.call t (.newShm h k size ro)) as).log = evs ++ (g.call t (.newShm h k size ro)).log ∧
+      (Bracketed g.os.nextObj evs → (holders g.os.nextObj evs).length ≤ 1) := by
+  obtain ⟨hA, hv, ho⟩ := creation_establishes_lock g t h k size ro hi hh hk hs hnone
+  obtain ⟨evs, h1, h2, _⟩ := at_most_one_in_critical_section k g.os.nextObj _ as hA hv ho hq
+  exact ⟨evs, h1, fun hb => (h2 hb).1⟩
+
+/-- PShm structs and shm calls only ever address the lock key of their own name — in every reachable
+    state; so they are `quiet` for every user semaphore key, and `QuietRun (.user n)` (C06) is a
+    condition on the `p_semaphore_new` / `p_semaphore_free` calls alone -/
+theorem shm_calls_never_touch_user_keys (pidOf : Tid → Pid) (as : List Action) (n : Nat) :
+    SemKeyWF (execAll (G.init pidOf) as) ∧
+    ((∀ t c, (execAll (G.init pidOf) as).calls t = some c →
+        (∀ hid s, c = .semNew hid s → ¬ s.mayUnlink (.user n)) ∧ (∀ s, c = .semFree s → ¬ s.mayUnlink (.user n))) →
+      Quiet (.user n) (execAll (G.init pidOf) as)) :=
+  ⟨semKeyWF_execAll as _ (semKeyWF_init pidOf), quiet_user _ (semKeyWF_execAll as _ (semKeyWF_init pidOf)) n⟩
 
 /-! ## concurrent first-time creation (F11) -/
 
@@ -632,5 +766,122 @@ example : (interleavings 12 5).length = 792 ∧ ((interleavings 12 5).filter avo
 example : ∀ st : SemNewSt, st.mode = .open → st.pc = .excl → Call.quiet (.lock 0) (.shmNew 1 { key := 0, req := 0, ro := false, size := 0, pc := .sem st }) := by
   intro st hm hp
   simp [Call.quiet, SemNewSt.mayUnlink, hm, hp]
+
+/-- `Bracketed` / `holders` are not vacuous: lock by thread 1, unlock by thread 1, lock by thread 2 -/
+example :
+    Bracketed 0 [⟨2, 2, .semWait 0, .ok 0⟩, ⟨1, 1, .semPost 0, .ok 0⟩, ⟨1, 1, .semWait 0, .ok 0⟩] ∧
+    holders 0 [⟨2, 2, .semWait 0, .ok 0⟩, ⟨1, 1, .semPost 0, .ok 0⟩, ⟨1, 1, .semWait 0, .ok 0⟩] = [2] ∧
+    holders 0 [⟨1, 1, .semWait 0, .ok 0⟩] = [1] := by
+  simp [Bracketed, holders, isAcq, isRel]
+
+/-! ### a lock semaphore re-created by a follower after a creator crash (finding) -/
+
+/-
+  FULL STATEMENT (false of the code):
+
+  theorem lock_is_mutex_while_segment_exists : for every schedule without an owner free of the segment
+      name `k` (no `shm_unlink (k)`), SIGKILLs included, all live handles of `k` lock ONE semaphore.
+
+  It fails after a creator is killed between `close` and its `p_semaphore_new` (crash points 3 and 4 of
+  `p_shm_new`): the segment exists without a lock semaphore; the next follower's OPEN-mode
+  `p_semaphore_new` creates it and therefore has `sem_created = TRUE`; when that follower — not an owner
+  of the segment — frees its handle, `pp_semaphore_clean_handle` unlinks the lock name while the segment
+  and the other handles live on; the next opener creates a SECOND lock semaphore.  `lock_is_mutex` /
+  `at_most_one_in_critical_section` exclude it through `QuietRun (.lock k)` (that `p_shm_free` is a call
+  that may unlink the lock key).
+-/
+
+/-- the witness: creator (process 0) killed after 4 system calls; followers 1 and 2 open; 1 frees; 3 opens -/
+def lockLostWitness : G :=
+  let g0 := (List.replicate 4 (Action.step 0 false)).foldl exec ((G.init id).start 0 (.newShm 0 0 64 false))
+  let g1 := g0.kill 0
+  let g2 := (g1.call 1 (.newShm 1 0 0 false)).call 2 (.newShm 2 0 0 false)
+  let g3 := g2.call 1 (.free 1)
+  g3.call 3 (.newShm 3 0 0 false)
+
+set_option maxRecDepth 100000 in
+/-- negation on the witness: no `shm_unlink` has happened and the segment name is still bound, handles 2
+    and 3 map the same segment, but they hold DIFFERENT lock semaphores of value 1 each, and both
+    `p_shm_lock` calls succeed at once -/
+theorem follower_free_unlinks_lock_false :
+    lockLostWitness.os.shmNames 0 = some 0 ∧
+    (lockLostWitness.log.all fun e => decide (e.sys ≠ .shmUnlink 0)) = true ∧
+    segOf lockLostWitness 2 = some 0 ∧ segOf lockLostWitness 3 = some 0 ∧
+    lockOf lockLostWitness 2 = some 0 ∧ lockOf lockLostWitness 3 = some 1 ∧
+    ((lockLostWitness.call 2 (.lock 2)).call 3 (.lock 3)).ret 2 = some .unit ∧
+    ((lockLostWitness.call 2 (.lock 2)).call 3 (.lock 3)).ret 3 = some .unit := by decide
+
+/-! ### non-vacuity of the interleaved theorems -/
+
+/-- computable form of `NoShmUnlink` -/
+def noShmUnlinkB (k : ShmKey) : G → List Action → Bool
+  | _, [] => true
+  | g, a :: as =>
+    (match a with
+     | .step t _ => (match g.calls t with
+                     | some c => decide (c.next ≠ .shmUnlink k)
+                     | none => true)
+     | _ => true) && noShmUnlinkB k (exec g a) as
+
+theorem noShmUnlinkB_spec (k : ShmKey) (as : List Action) : ∀ g, noShmUnlinkB k g as = true → NoShmUnlink k g as := by
+  induction as with
+  | nil => intro g _; trivial
+  | cons a as ih =>
+    intro g h
+    simp only [noShmUnlinkB, Bool.and_eq_true] at h
+    refine ⟨?_, ih _ h.2⟩
+    cases a with
+    | step t i =>
+      intro c hc
+      have h1 := h.1
+      simp only [hc, decide_eq_true_eq] at h1
+      exact h1
+    | start t op => trivial
+    | kill p => trivial
+
+/-- process 0 has created name 0 (64 bytes); then processes 1 and 2 open it (16 bytes / whole segment)
+    with their system calls strictly alternating, while process 0 stores a byte in between -/
+def interleavedOpens : List Action :=
+  [.start 1 (.newShm 1 0 16 false), .start 2 (.newShm 2 0 0 false),
+   .step 1 false, .step 2 false, .step 1 false, .start 0 (.wr 0 3 7), .step 2 false, .step 1 false, .step 2 false,
+   .step 1 false, .step 2 false, .step 1 false, .step 2 false, .step 1 false, .step 2 false, .step 1 false, .step 2 false]
+
+set_option maxRecDepth 100000 in
+/-- the hypotheses of `segment_exists_while_not_unlinked` / `same_name_same_bytes_interleaved` /
+    `no_fault_below_size_interleaved` hold for this run, both followers got their handles, and the
+    handles are of different reported sizes -/
+example :
+    (G.init id).hs 0 = none ∧ (G.init id).os.shmNames 0 = none ∧
+    noShmUnlinkB 0 ((G.init id).call 0 (.newShm 0 0 64 false)) interleavedOpens = true ∧
+    (execAll ((G.init id).call 0 (.newShm 0 0 64 false)) interleavedOpens).hs 1 =
+      some (1, .shm ⟨false, 0, 1, 16, ⟨false, .lock 0, 0, .open, 1⟩, false⟩) ∧
+    (execAll ((G.init id).call 0 (.newShm 0 0 64 false)) interleavedOpens).hs 2 =
+      some (2, .shm ⟨false, 0, 1, 64, ⟨false, .lock 0, 0, .open, 1⟩, false⟩) ∧
+    (execAll ((G.init id).call 0 (.newShm 0 0 64 false)) interleavedOpens).calls 1 = none ∧
+    (execAll ((G.init id).call 0 (.newShm 0 0 64 false)) interleavedOpens).calls 2 = none := by decide
+
+/-- the state after that run -/
+def afterInterleavedOpens : G := execAll ((G.init id).call 0 (.newShm 0 0 64 false)) interleavedOpens
+
+set_option maxRecDepth 100000 in
+theorem afterInterleavedOpens_facts :
+    noShmUnlinkB 0 ((G.init id).call 0 (.newShm 0 0 64 false)) interleavedOpens = true ∧
+    afterInterleavedOpens.hs 1 = some (afterInterleavedOpens.pidOf 1, .shm ⟨false, 0, 1, 16, ⟨false, .lock 0, 0, .open, 1⟩, false⟩) ∧
+    afterInterleavedOpens.hs 2 = some (afterInterleavedOpens.pidOf 2, .shm ⟨false, 0, 1, 64, ⟨false, .lock 0, 0, .open, 1⟩, false⟩) ∧
+    (afterInterleavedOpens.os.procs (afterInterleavedOpens.pidOf 1)).alive = true ∧ afterInterleavedOpens.calls 1 = none ∧
+    (afterInterleavedOpens.os.procs (afterInterleavedOpens.pidOf 2)).alive = true ∧ afterInterleavedOpens.calls 2 = none := by
+  decide
+
+/-- … and the general theorem applies to it: what process 1 stores at offset 5 is what process 2 loads -/
+example (b : UInt8) :
+    ((afterInterleavedOpens.call 1 (.wr 1 5 b)).call 2 (.rd 2 5)).ret 2 = some (.byte b) := by
+  have hinit := reachable_invariants id []
+  obtain ⟨f0, f1, f2, f3, f4, f5, f6⟩ := afterInterleavedOpens_facts
+  have hex := segment_exists_while_not_unlinked (G.init id) 0 0 0 64 false interleavedOpens hinit.1 hinit.2 ⟨rfl, rfl⟩ rfl rfl
+    (by decide) (by intro h' p y hy; simp [G.init] at hy) (by intro t' hid st hc; simp [G.init] at hc)
+    (noShmUnlinkB_spec 0 _ _ f0)
+  exact same_name_same_bytes_interleaved 0 _ 64 afterInterleavedOpens [] hex.1 hex.2 trivial 1 2 1 2
+    ⟨false, 0, 1, 16, ⟨false, .lock 0, 0, .open, 1⟩, false⟩ ⟨false, 0, 1, 64, ⟨false, .lock 0, 0, .open, 1⟩, false⟩ 5 b
+    ⟨f3, f4⟩ ⟨f5, f6⟩ f1 f2 rfl rfl rfl (by decide) (by decide)
 
 end PV.IPC.C07
